@@ -97,6 +97,55 @@ static rc::Gen<Case> genCase() {
             c.shape = "lobed:" + h.describe() + " lobes=" + std::to_string(lobes.size());
         }
         c.mesh = mg::place(base, pl);
+        if (*irange(0, 11) == 0 && c.mesh.nn() <= 400) {
+            // The cell's bookkeeping identifies an edge by the Cantor pairing of its two node ids. Large or sparsely numbered cells (a small
+            // mesh stored in a long point list) have ids up to ~1e5, where the pairing exceeds 2^32: the node ids are scattered over such a list
+            // and two node-disjoint edges get ids whose exact pairings differ by exactly 2^32 (inverse pairing), all other ids are random.
+            const TriMesh& m = c.mesh;
+            auto cantor = [](uint64_t a, uint64_t b) { return (a + b) * (a + b + 1) / 2 + b; };
+            unsigned e1a = m.tri[0], e1b = m.tri[1];
+            unsigned e2a = 0, e2b = 0;
+            bool found = false;
+            for (size_t t = 1; t < m.nt() && !found; t++)
+                for (int j = 0; j < 3 && !found; j++) {
+                    unsigned u = m.tri[3 * t + j], v = m.tri[3 * t + (j + 1) % 3];
+                    if (u != e1a && u != e1b && v != e1a && v != e1b) e2a = u, e2b = v, found = true;
+                }
+            if (found) {
+                uint64_t x = (uint64_t)*irange(0, 3000), y = x + 1 + (uint64_t)*irange(0, 3000), a = 0, b = 0;
+                for (uint64_t kk = 1; kk <= 3; kk++) {
+                    const uint64_t z = cantor(x, y) + (kk << 32);
+                    uint64_t w = (uint64_t)((std::sqrt(8.0L * (long double)z + 1) - 1) / 2);
+                    while (w * (w + 1) / 2 > z) w--;
+                    while ((w + 1) * (w + 2) / 2 <= z) w++;
+                    b = z - w * (w + 1) / 2, a = w - b;
+                    if (a < b && a != x && a != y && b != x && b != y) break;
+                    a = b = 0;
+                }
+                if (b != 0) {
+                    std::vector<uint64_t> id(m.nn(), UINT64_MAX);
+                    std::set<uint64_t> used = {x, y, a, b};
+                    id[e1a] = x, id[e1b] = y, id[e2a] = a, id[e2b] = b;
+                    const uint64_t top = std::max(b, y) + 40;
+                    for (size_t i = 0; i < m.nn(); i++) {
+                        if (id[i] != UINT64_MAX) continue;
+                        uint64_t r;
+                        do r = (uint64_t)*irange(0, (int)top);
+                        while (used.count(r));
+                        used.insert(r), id[i] = r;
+                    }
+                    TriMesh big;
+                    big.xyz.resize(3 * (top + 1));
+                    for (uint64_t i = 0; i <= top; i++)
+                        for (int q = 0; q < 3; q++) big.xyz[3 * i + q] = m.xyz[q];  // unused points sit on a used one
+                    for (size_t i = 0; i < m.nn(); i++)
+                        for (int q = 0; q < 3; q++) big.xyz[3 * id[i] + q] = m.xyz[3 * i + q];
+                    for (unsigned v : m.tri) big.tri.push_back((unsigned)id[v]);
+                    c.mesh = big;
+                    c.shape = "sparse-ids(" + std::to_string(top + 1) + " slots):" + c.shape;
+                }
+            }
+        }
         c.lmin_factor = *rc::gen::element(0.2, 0.3, 0.4, 0.5, 0.6, 0.8, 0.95);
         c.ops = *rc::gen::container<std::vector<Op>>(genOp());
         return c;
@@ -348,6 +397,7 @@ static std::string run(const Case& k, vf::Ctx& ctx) {
     const bool nontrivial = kinds_effective.count(SPLIT) + kinds_effective.count(REFINE) > 0 && kinds_effective.count(SWAP) + kinds_effective.count(REFINE) > 0 &&
                             kinds_effective.size() >= 2 && op_on_created;
     if (k.shape.rfind("lobed:", 0) == 0) ctx.count("start_mesh_with_waists");
+    if (k.shape.rfind("sparse-ids", 0) == 0) ctx.count("start_mesh_with_node_ids_up_to_1e5");
     if (op_on_created) ctx.count("history_op_on_face_created_earlier");
     if (rebase_then_op) ctx.count("history_op_after_rebase");
     if (reused_slot) ctx.count("history_op_reusing_free_slot");
